@@ -38,4 +38,13 @@ def main(argv=None):
 
 
 if __name__ == "__main__":
-    sys.exit(main())
+    try:
+        code = main()
+    except SystemExit:
+        raise
+    except BaseException:  # noqa: BLE001  a failure of the machinery itself is never exit code 1
+        import traceback
+
+        print("HARNESS-ERROR " + traceback.format_exc())
+        code = 2
+    sys.exit(code)
